@@ -302,7 +302,11 @@ NUMS = [b"", b"\x00", b"\x80", b"\x01", b"\x81", b"\x02", b"\x03", b"\x10", b"\x
         b"\x01\x00\x00\x00\x00\x00", b"\xff" * 6, b"\x00\x00\x80", b"\xff\xff\x7f"]
 SMALLNUMS = [b"", b"\x01", b"\x81", b"\x02", b"\x03", b"\x05", b"\x10", b"\x00", b"\x80", b"\x01\x00", b"\x7f", b"\xff\x00"]
 BLOBS = [b"", b"\x00", b"\x80", b"\x00\x80", b"\x00\x00\x00", b"abc", b"\x01", b"\x01\x00", b"\x02", b"\xaa" * 20,
-         b"\x5a" * 32, b"\x00" * 75, b"\x11" * 76, b"\x80" * 255, b"\x7e" * 256, b"\x33" * 520]
+         b"\x5a" * 32, b"\x00" * 75, b"\x11" * 76, b"\x80" * 255, b"\x7e" * 256, b"\x33" * 520,
+         # long zeros / negative zeros / near-misses: truthiness has no length limit (seed C03-d1)
+         b"\x00" * 5 + b"\x80", b"\x00" * 6 + b"\x80", b"\x00" * 6, b"\x00" * 5 + b"\x81", b"\x00" * 19 + b"\x80",
+         b"\x00" * 31 + b"\x80", b"\x00" * 32 + b"\x80", b"\x00" * 519 + b"\x80", b"\x00" * 520, b"\x01" + b"\x00" * 6 + b"\x80",
+         b"\x00" * 6 + b"\x80\x00", b"\x80" + b"\x00" * 7]
 BOUNDARY_LENS = [0, 1, 2, 74, 75, 76, 77, 254, 255, 256, 257, 519, 520, 521, 522, 600]
 
 
